@@ -153,5 +153,8 @@ if __name__ == '__main__':
     elif sys.argv[1] == 'import7':
         for pid in sys.argv[2:]:
             do_import(pid, '/tmp/mut7', ('M', 'N'))
+    elif sys.argv[1] == 'import8':
+        for pid in sys.argv[2:]:
+            do_import(pid, '/tmp/mut8', ('O', 'P'))
     elif sys.argv[1] == 'run':
         sys.exit(do_run(sys.argv[2], sys.argv[3:]))
